@@ -104,7 +104,11 @@ func Word(r *rand.Rand, local []string) string {
 	}
 }
 
-var unicodeBits = []string{"café", "naïve", "Ünïcode", "日本語", "файл", "αρχείο", "😀", "ﬁle", "İstanbul", "straße", "K", "ǅ"}
+// Non-ASCII fragments. U+0130 and U+212A (the code points whose lower-case is an ASCII letter) are kept out: for them
+// "lower-case then normalise" and "normalise then lower-case" legitimately differ (the C20 statement carves them out too);
+// they appear only in the hostile class used by C10.
+var unicodeBits = []string{"café", "naïve", "Ünïcode", "日本語", "файл", "αρχείο", "😀", "ﬁle", "straße", "ǅ", "ÀÉÎ", "Ω"}
+var hostileUnicode = []string{"İstanbul", "\u212a", "ı", "ſ"}
 var punctBits = []string{"-", "--", "_", ".", "/", "\\", "'", "\"", "*", "{}", "[]", "()", "!", "?", "#", "%", "@", "~", "+", "=", ":", ","}
 
 func caseMangle(r *rand.Rand, w string) string {
@@ -222,7 +226,7 @@ func GenCommands(r *rand.Rand, sp DBSpec) []Cmd {
 			}
 		}
 		if sp.Hostile && r.Intn(3) == 0 {
-			h := pick(r, []string{"\x00", "\x01", "\x7f", "\xff", "\xc3\x28", "\xed\xa0\x80", "\u0085", "\u2028", "\ufeff", "\t", "\n", "\r\n"})
+			h := pick(r, []string{hostileUnicode[0], hostileUnicode[1], hostileUnicode[2], hostileUnicode[3], "\x00", "\x01", "\x7f", "\xff", "\xc3\x28", "\xed\xa0\x80", "\u0085", "\u2028", "\ufeff", "\t", "\n", "\r\n"})
 			switch r.Intn(4) {
 			case 0:
 				c.Command += h
